@@ -149,6 +149,34 @@ func directedPrograms() []*Program {
 			&Assign{Target: &Path{Root: "x", Steps: []Step{{Idx: idx}}}, Rhs: strLit("new")},
 			&Rec{Tag: "lc", Args: []Expr{&Builtin{"len", []Expr{&Var{"x"}}}, &Var{"x"}, &Var{"l"}}}}})
 	}
+	// concat must return a NEW list: two results built from the same first
+	// operand must not share storage with it or with each other, whatever spare
+	// capacity the operand's Go slice has (literal sizes 1..9, lists grown by add)
+	for n := 1; n <= 9; n++ {
+		for grown := 0; grown < 2; grown++ {
+			lit := func(k int) Expr {
+				var es []Expr
+				for i := 0; i < k; i++ {
+					es = append(es, numLit(float64(10+i)))
+				}
+				return &ListLit{es}
+			}
+			body := []Stmt{&Assign{Target: &Var{"l"}, Rhs: lit(n)}}
+			if grown == 1 {
+				body = []Stmt{&Assign{Target: &Var{"l"}, Rhs: lit(1)}}
+				for i := 1; i < n; i++ {
+					body = append(body, &Assign{Target: &Var{"l"}, Rhs: &Builtin{"add", []Expr{&Var{"l"}, numLit(float64(10 + i))}}})
+				}
+			}
+			body = append(body,
+				&Assign{Target: &Var{"x"}, Rhs: &Builtin{"concat", []Expr{&Var{"l"}, &ListLit{[]Expr{strLit("b")}}}}},
+				&Assign{Target: &Var{"y"}, Rhs: &Builtin{"concat", []Expr{&Var{"l"}, &ListLit{[]Expr{strLit("c")}}}}},
+				&Rec{Tag: "cc1", Args: []Expr{&Var{"x"}, &Var{"y"}, &Var{"l"}}},
+				&Assign{Target: &Path{Root: "x", Steps: []Step{{Idx: numLit(0)}}}, Rhs: strLit("new")},
+				&Rec{Tag: "cc2", Args: []Expr{&Var{"x"}, &Var{"y"}, &Var{"l"}, &Builtin{"len", []Expr{&Var{"x"}}}, &Builtin{"len", []Expr{&Var{"y"}}}, &Builtin{"len", []Expr{&Var{"l"}}}}})
+			res = append(res, &Program{Names: names, Body: body})
+		}
+	}
 	return append(res, scenarioPrograms()...)
 }
 
